@@ -60,3 +60,36 @@ def compare_auth_dict(B, pol, d, as_text):
                         {"entry": "verify_authentication_response", "credential": d, "as_text": as_text, "policy": pol.describe(), "impl": il, "model": ml})
     chk.count("jsonmut:" + il[:24])
     chk.seen(("jsonmut", json.dumps(d, sort_keys=True)[:200]))
+
+
+
+def text_spellings(d):
+    """JSON texts that json.loads reads as exactly the value d (checked): repeated member names (the last one counts), escaped member names and
+    strings, white space, another member order, a byte order mark-free but padded text.  -> [(name, text)]"""
+    import json
+    t = json.dumps(d)
+    out = []
+    if isinstance(d, dict) and d:
+        k0 = next(iter(d))
+        out.append(("first member repeated with another value in front", "{" + json.dumps(k0) + ": " + json.dumps("AAAA") + ", " + t[1:]))
+        out.append(("an ignored member given twice", t[:-1] + ', "clientExtensionResults": {"a": 1, "a": 2}, "clientExtensionResults": ' + json.dumps(d.get("clientExtensionResults", {})) + "}")
+                   if "clientExtensionResults" in d or True else None)
+        if isinstance(d.get("response"), dict):
+            r = d["response"]
+            rk = next(iter(r))
+            t2 = json.dumps(dict(d, response="@@R@@")).replace('"@@R@@"', "{" + json.dumps(rk) + ": 7, " + json.dumps(r)[1:])
+            out.append(("a response member repeated with another value in front", t2))
+            out.append(("the response given twice", "{" + '"response": {}, ' + t[1:]))
+        esc = "".join("\\u%04x" % ord(c) for c in k0)
+        out.append(("member name written with escapes", "{\"" + esc + "\"" + t[1 + len(json.dumps(k0)):]))
+    out.append(("indented, sorted", json.dumps(d, indent=2, sort_keys=True)))
+    out.append(("ASCII-escaped, compact", json.dumps(d, ensure_ascii=True, separators=(",", ":"))))
+    out.append(("non-ASCII kept", json.dumps(d, ensure_ascii=False)))
+    good = []
+    for nm, tx in out:
+        try:
+            if json.loads(tx) == d and (nm, tx) not in good:
+                good.append((nm, tx))
+        except Exception:
+            pass
+    return good
